@@ -1291,8 +1291,8 @@ pub fn main(tier: Tier, seed: u64) -> Report {
     if !regress.is_empty() {
         runner::run_cases(&mut rep, "regress", regress, run_case);
     }
-    runner::run_generated(&mut rep, "rtc", tier.pick(9000, 60_000), || strategy_rtc(tier), run_case);
-    runner::run_generated(&mut rep, "rfn", tier.pick(3000, 20_000), || strategy_rfn(tier), run_case);
+    runner::run_generated(&mut rep, "rtc", tier.pick(18_000, 60_000), || strategy_rtc(tier), run_case);
+    runner::run_generated(&mut rep, "rfn", tier.pick(6000, 20_000), || strategy_rfn(tier), run_case);
     rep
 }
 
